@@ -20,8 +20,6 @@ import numpy
 from .. import stat
 from .. import numpy_util
 
-from types import FunctionType, MethodType
-
 try:
     from . import _cgauleg
 
@@ -81,7 +79,7 @@ class QGauss(object):
         Integrate a function or points
         """
 
-        if isinstance(yvals_or_func, (FunctionType, MethodType)):
+        if callable(yvals_or_func):
             return self.integrate_func(xvals, yvals_or_func, npts)
         else:
             return self.integrate_data(xvals, yvals_or_func, npts)
